@@ -340,7 +340,7 @@ def build():
   from pyvc.runner import Bounded
   return Property(
     'C17', units,
-    bounded=[Bounded('C17/native/two_thread_schedules', 'replay/cache_sched_native.py', ['--depth', '2', '--only', 'sched-no_raise,sched-no_empty_entries'], ['--depth', '3', '--only', 'sched-no_raise,sched-no_empty_entries'],
+    bounded=[Bounded('C17/native/two_thread_schedules', 'replay/cache_sched_native.py', ['--depth', '2', '--only', 'sched-no_raise,sched-no_empty_entries,sched-undrainable'], ['--depth', '3', '--only', 'sched-no_raise,sched-no_empty_entries,sched-undrainable'],
                      'the real _MetricCache under deterministic two-thread schedules (sys.settrace): every history of <= 2 (quick) / 3 (thorough) store / drain_metric calls over 2 metrics x 2 timestamps, with the other thread (writer: 1, 2 or all drains; receiver: one of 4 stores) run at every line step of the traced call at which the cache lock is not held; MAX_CACHE_SIZE in {1,2,3,inf} plus pre-filled caches of 20 with flow control (where cacheFull can fire), all seven strategies',
                      'schedules at line granularity of cache.py give the concrete interleaving that the lock-invariant / rely-guarantee obligations only refute abstractly (byte-code level races inside one line stay out of reach)'),
              Bounded('C17/native/cache_contracts_cross_check', 'replay/cache_native.py',
